@@ -19,6 +19,7 @@ RULE = ("histories of add/remove/remove-absent/add-present/draw/contains/len/ite
         "history; non-trivial = it contains >=1 middle-slot removal and >=1 removal to empty; distinct = SHA-1 of "
         "the concrete operation sequence")
 RULE += ("; rounds k-l added: " + 'per batch one large history: 1 050..1 700 members, then shrunk by removals in arbitrary order to n/3 .. 3 with re-insertions, repeated removals and draws on the way, full looks at 4 points; closing drain-and-refill phase after a quarter of the small histories (always when the private containers disagree)')
+RULE += '; round m: a present element inserted while an iterator over the set is live (25% of the add-present operations)'
 ASSUMPTIONS = ["model = builtin set", "draw() is observed through the module-level random used by draw_set.py; "
                "if no choice() call is seen the exact drawability part falls back to seeded sampling",
                "the look at the private containers (_edges/_edge_hashmap agree) is a diagnostic that only decides how hard a history is driven on (closing drain and refill); verdicts come from len, iteration, membership, draws and raises alone"]
